@@ -587,6 +587,9 @@ func (e *SpecEnv) call(x ECall) SVal {
 			sfail("dom() of non-map")
 		}
 		k := e.value(e.eval(x.Args[1]))
+		if ks := e.W.Sorts.SortOf(mt.Key()); k.T.Sort != ks {
+			sfail("dom(): key of sort %s used with a map whose keys have sort %s", k.T.Sort, ks)
+		}
 		md, _ := e.mapComps(mt)
 		return SVal{T: And(Ne(v.T, IntLit(0)), Sel(Sel(md, v.T), k.T)), Go: boolT}
 	case "tag": // dynamic type tag of an interface value
